@@ -167,7 +167,7 @@ func entriesMatch(got changelog.ChangelogEntries, want []ClEntry) error {
 
 var specC17Model = Register(&Spec[ClDoc]{
 	Prop: "C17", Name: "model",
-	Rule: "changelogs rendered from an entry-list model: 1..6 entries; source [a-z0-9][a-z0-9+.-]+, Policy-grammar version, 1..3 distributions, 1..3 key=value options, body of blank lines after the header, '  * item', deeper continuation, '  [ Name ]', blank lines and lines containing ' -- ', ';', '(' in the middle, blank lines before the trailer; maintainer 'Name <mail>'; timestamp from a generated instant and zone offset (-12:00..+14:00 incl. half/quarter hours and +00:01) rendered like date -R; 0..3 blank lines between entries; final newline present or absent; trailing blank lines. Oracle: changelog.Parse returns one entry per block in order with Source, Version (parts), Target (distributions joined by one blank), Arguments, Changelog == exact bytes between header and trailer line, ChangedBy, When equal as instant AND zone offset; ParseOne returns the first. Non-trivial: >= 2 entries, >= 2 options, or no final newline; distinct by text.",
+	Rule: "changelogs rendered from an entry-list model: 1..6 entries; source [a-z0-9][a-z0-9+.-]+, Policy-grammar version, 1..3 distributions, 1..3 key=value options, body of blank lines after the header, '  * item', deeper continuation, '  [ Name ]', blank lines and lines containing ' -- ', ';', '(' in the middle, blank lines before the trailer; maintainer 'Name <mail>'; timestamp from a generated instant and zone offset (-12:00..+14:00 incl. half/quarter hours and +00:01) rendered like date -R; 0..3 blank lines between entries; final newline present or absent; trailing blank lines. Oracle: changelog.Parse returns one entry per block in order with Source, Version (parts), Target (distributions joined by one blank), Arguments, Changelog == exact bytes between header and trailer line, ChangedBy, When equal as instant AND zone offset; ParseOne returns the first; parsing the same text again right after three failing parses (document cut inside a body, trailer without date) gives the same entries. Non-trivial: >= 2 entries, >= 2 options, or no final newline; distinct by text.",
 	Check: func(d ClDoc, r *Recorder) error {
 		text := renderClDoc(d)
 		nt := len(d.Entries) >= 2 || !d.FinalNewline
@@ -194,6 +194,19 @@ var specC17Model = Register(&Spec[ClDoc]{
 		}
 		if err := entriesMatch(got, d.Entries); err != nil {
 			return errf("%v (changelog %q)", err, text)
+		}
+		// the outcome depends on the input only: the same document parsed right after failed
+		// parses (cut inside a body, damaged trailer) must give the same entries
+		h0, b0, _ := renderClEntry(d.Entries[0])
+		for _, poison := range []string{h0 + b0, h0 + b0 + " -- nobody\n", h0 + "  * left over\n" + b0[:len(b0)/2]} {
+			_, _ = changelog.Parse(strings.NewReader(poison))
+		}
+		again, err := changelog.Parse(strings.NewReader(text))
+		if err != nil {
+			return errf("Parse rejected %q when it was parsed again after failed parses: %v", text, err)
+		}
+		if err := entriesMatch(again, d.Entries); err != nil {
+			return errf("after failed parses of other input: %v (changelog %q)", err, text)
 		}
 		one, err := changelog.ParseOne(bufio.NewReader(strings.NewReader(text)))
 		if err != nil || one == nil {
